@@ -1,9 +1,78 @@
 // Correspondence harness for C03: StringUtils::EscapeHTMLSpecialChars on exact-size buffers.
 //   esc <auto> <w> <units>   ->  units appended to the stream
+#include <new>
+#include "ledger.hpp"
 #include "common.hpp"
 #include "StringStream.hpp"
 #include "StringUtils.hpp"
+#include "Value.hpp"
+#include "Template.hpp"
 using namespace Qentem;
+
+// Template print paths (C03): every way a {var:} tag can emit a string.
+//   tpl <auto> <w> <mode> <units>   modes: var ptr arr loopval loopkey echo raw rawptr svar
+template <typename Char_T>
+static std::basic_string<Char_T> lit(const char *a) {
+    std::basic_string<Char_T> r;
+    for (; *a; ++a) r.push_back(Char_T(*a));
+    return r;
+}
+
+template <typename Char_T>
+static std::string doTpl(const std::string &mode, const std::vector<uint64_t> &u) {
+    using Str = std::basic_string<Char_T>;
+    vh::ExactBuf<Char_T> in(u);
+    String<Char_T>       S(static_cast<const Char_T *>(in.p), SizeT(in.n));
+    Value<Char_T>        value;
+    Value<Char_T>        target;
+    Str                  t;
+    const Char_T         kx[] = {Char_T('x'), 0};
+    const Char_T         kl[] = {Char_T('l'), 0};
+    const Char_T         kp[] = {Char_T('p'), 0};
+    const Char_T         ka[] = {Char_T('a'), 0};
+    if (mode == "var" || mode == "raw") {
+        value[kx] = S;
+        t = lit<Char_T>(mode == "var" ? "{var:x}" : "{raw:x}");
+    } else if (mode == "ptr" || mode == "rawptr") {
+        target = S;
+        value[kx].SetPointerToValue(&target);
+        t = lit<Char_T>(mode == "ptr" ? "{var:x}" : "{raw:x}");
+    } else if (mode == "arr") {
+        value += S;
+        t = lit<Char_T>("a{var:0}b");
+    } else if (mode == "loopval") {
+        value[kl] += S;
+        t = lit<Char_T>("<loop set=\"l\" value=\"v\">{var:v}</loop>");
+    } else if (mode == "loopkey") {
+        value[kl][S] += SizeT64{1}; // item value is an array: not printable, the key is printed instead
+        t = lit<Char_T>("<loop set=\"l\" value=\"v\">{var:v}</loop>");
+    } else if (mode == "echo") {
+        t = lit<Char_T>("{var:");
+        t.append(in.p, in.n);
+        t.push_back(Char_T('}'));
+    } else if (mode == "svar") {
+        Str ph(in.p, in.n);
+        ph += lit<Char_T>("{0}");
+        value[kp] = String<Char_T>(static_cast<const Char_T *>(ph.data()), SizeT(ph.size()));
+        value[ka] = S;
+        t = lit<Char_T>("{svar:p, {var:a}}");
+    } else {
+        return "bad-op";
+    }
+    std::vector<uint64_t> tu(t.begin(), t.end());
+    vh::ExactBuf<Char_T>  tb(tu);
+    StringStream<Char_T>  ss;
+    ss += Char_T('<');
+    Template::Render(tb.p, SizeT(tb.n), value, ss);
+    if (ss.Length() < 1 || ss.First()[0] != Char_T('<')) return "prefix-disturbed";
+    SizeT from = 1, len = ss.Length() - 1;
+    if (mode == "arr") {
+        if (len < 2 || ss.First()[1] != Char_T('a') || *ss.Last() != Char_T('b')) return "frame-disturbed";
+        from = 2;
+        len -= 2;
+    }
+    return vh::show_units(ss.First() + from, len);
+}
 
 template <typename Char_T>
 static std::string doEsc(const std::vector<uint64_t> &u, bool prefill) {
@@ -33,6 +102,12 @@ int main() {
             else if (t[2] == "2") vh::emit(doEsc<char16_t>(u, pre));
             else if (t[2] == "4") vh::emit(doEsc<char32_t>(u, pre));
             else if (t[2] == "W") vh::emit(doEsc<wchar_t>(u, pre));
+            else vh::emit("bad-op");
+        } else if (t.size() == 5 && t[0] == "tpl" && vh::parse_nats(t[4], u)) {
+            if ((t[1] == "1") != Config::AutoEscapeHTML) { vh::emit("cfg-mismatch"); continue; }
+            if (t[2] == "1") vh::emit(doTpl<char>(t[3], u));
+            else if (t[2] == "2") vh::emit(doTpl<char16_t>(t[3], u));
+            else if (t[2] == "4") vh::emit(doTpl<char32_t>(t[3], u));
             else vh::emit("bad-op");
         } else {
             vh::emit("bad-op");
